@@ -9,7 +9,7 @@
    expressible in these models; they are covered by race-detector runs of the real binary
    only (supporting evidence, not proof). *)
 From stdpp Require Import gmap.
-From Hermes Require Import PoolModel PoolProofs DispatchModel DispatchProofs.
+From Hermes Require Import PoolModel PoolProofs DispatchModel DispatchProofs OutFileModel OutFileProofs.
 
 (* every value returned by any interleaving (= any list, the mutex serialises) of Get and
    Close calls equals the disk content of the requested path; invariant: pool ⊆ disk *)
@@ -81,6 +81,34 @@ Theorem C03_scheduler_sound :
   exec disk nilb run_prog err c s tr s' /\ stuck disk nilb run_prog err c s'.
 Proof. exact @sim_maximal_lemma. Qed.
 
+(* result files (hermes/path.go DefaultFoutGenerator: not append => O_TRUNC): after ANY history
+   of runs, from ANY initial state of the result folders, a file holds exactly the bytes of
+   the last run that wrote it *)
+Theorem C03_last_writer_wins :
+  forall (path byte : Type) `{Countable path} (fs : gmap path (list byte))
+         (h : list (@run_out path byte)) (p : path),
+  do_history fs h !! p =
+  match last_write (concat h) p with Some ch => Some (concat ch) | None => fs !! p end.
+Proof. exact @last_writer_wins_lemma. Qed.
+
+(* ... so the files a run writes are the same whatever ran before it, in this or an earlier
+   session (used result folder = empty result folder) *)
+Theorem C03_result_independent_of_history :
+  forall (path byte : Type) `{Countable path} (fs1 fs2 : gmap path (list byte))
+         (h1 h2 : list (@run_out path byte)) (r : @run_out path byte) (p : path),
+  p ∈ r.*1 ->
+  do_history fs1 (h1 ++ [r]) !! p = do_history fs2 (h2 ++ [r]) !! p.
+Proof. exact @result_independent_of_history_lemma. Qed.
+
+(* the model distinguishes the flags: without O_TRUNC a shorter output keeps the old tail *)
+Theorem C03_trunc_is_needed :
+  forall (byte : Type) (old data : list byte),
+  length data < length old ->
+  write_chunks (fopen false false (Some old)).1 (fopen false false (Some old)).2 [data]
+    = data ++ drop (length data) old /\
+  data ++ drop (length data) old <> data.
+Proof. exact @trunc_is_needed_lemma. Qed.
+
 (* non-vacuity: a concrete batch (5 lines, one failing, concurrency 2): the executable
    scheduler yields a maximal schedule of 15 transitions with summary [3] *)
 Example C03_nonvacuous :
@@ -96,3 +124,6 @@ Print Assumptions C03_pool_cache_irrelevant.
 Print Assumptions C03_dispatch_exact_once.
 Print Assumptions C03_results_schedule_independent.
 Print Assumptions C03_scheduler_sound.
+Print Assumptions C03_last_writer_wins.
+Print Assumptions C03_result_independent_of_history.
+Print Assumptions C03_trunc_is_needed.
